@@ -38,6 +38,9 @@ OTHER_IP = '10.9.9.9'
 PEER_DNS = 'peer.example'
 OTHER_DNS = 'other.example'
 PEER_NODE = 'dtn://peer-node/'
+# node ids a peer may announce instead of the one in its certificate: every one of them is another text than the URI identifier
+ANNOUNCE = {'empty': b'', 'nul': PEER_NODE.encode('utf8') + b'\x00', 'nul3': PEER_NODE.encode('utf8') + b'\x00\x00\x00', 'other-scheme': b'ipn:9.0',
+            'longer': PEER_NODE.encode('utf8') + b'x', 'space': PEER_NODE.encode('utf8') + b' '}
 OTHER_NODE = 'dtn://someone-else/'
 SAN4 = ('absent', 'match', 'mismatch', 'both')
 
@@ -111,8 +114,9 @@ def all_rows():
                                  ip='absent', dns='absent', uri='absent', req_host=req_host, req_node=req_node, cert='none'))
         # a peer that announces a zero-length node ID: any URI identifier in its certificate then contradicts the announcement
         for uri, req_node in itertools.product(SAN4, (False, True)):
-            rows.append(dict(local_can=local_can, peer_can=peer_can, require=require, hs_ok=hs_ok, naming=naming,
-                             ip='match', dns='absent', uri=uri, req_host=False, req_node=req_node, announce='empty'))
+            for announce in sorted(ANNOUNCE):
+                rows.append(dict(local_can=local_can, peer_can=peer_can, require=require, hs_ok=hs_ok, naming=naming,
+                                 ip='match', dns='absent', uri=uri, req_host=False, req_node=req_node, announce=announce))
     return rows
 
 
@@ -143,7 +147,7 @@ def decide(row):
     ip_v = verdict(row['ip'])
     dns_v = verdict(row['dns'], has_dns_ref)
     node_v = verdict(row['uri'])
-    if row.get('announce') == 'empty' and row['uri'] != 'absent':
+    if row.get('announce') and row['uri'] != 'absent':
         node_v = 'mismatch'
     contradiction = ip_v == 'mismatch' or dns_v == 'mismatch' or node_v == 'mismatch'
     host_ok = ip_v == 'match' or dns_v == 'match'
@@ -189,7 +193,7 @@ def run_row(row, obs):
     write(tw.encode(dict(type='contact', flags=(tw.CAN_TLS if row['peer_can'] else 0) | row.get('extra_flags', 0))))
     if not row.get('pipelined'):
         sim.settle(20000)
-    write(tw.encode(dict(type='SESS_INIT', keepalive=0, segment_mru=2 ** 20, transfer_mru=2 ** 30, nodeid=(b'' if row.get('announce') == 'empty' else PEER_NODE.encode('utf8')), ext=[])))
+    write(tw.encode(dict(type='SESS_INIT', keepalive=0, segment_mru=2 ** 20, transfer_mru=2 ** 30, nodeid=(ANNOUNCE[row['announce']] if row.get('announce') else PEER_NODE.encode('utf8')), ext=[])))
     sim.settle(20000)
     msgs, status = seen()
     obs['rows'] += 1
@@ -198,6 +202,17 @@ def run_row(row, obs):
     if attempt:
         obs['tls_attempted'] += 1
     problems = []
+    if row.get('pipelined') and attempt and row['hs_ok'] and want['outcome'] == 'established' and not sim.world.callback_errors:
+        # that SESS_INIT reached the endpoint in the clear, ahead of the handshake (someone on the path can put it there): nothing
+        # may be negotiated from it.  The peer's real SESS_INIT follows inside the secured channel and is the one that counts.
+        obs['cleartext_sess_init_probes'] = obs.get('cleartext_sess_init_probes', 0) + 1
+        if end.state() == 'established' or (passive and any(m['type'] == 'SESS_INIT' for m in msgs)):
+            problems.append(('cleartext', 'a SESS_INIT received in the clear, before the TLS handshake, was acted on after it: state %s, SESS_INIT %s' % (
+                end.state(), 'answered' if passive else 'accepted'), {}))
+            return problems, want
+        write(tw.encode(dict(type='SESS_INIT', keepalive=0, segment_mru=2 ** 20, transfer_mru=2 ** 30, nodeid=PEER_NODE.encode('utf8'), ext=[])))
+        sim.settle(20000)
+        msgs, status = seen()
     errs = sim.world.callback_errors
     if errs:
         problems.append(('raised', 'callback %s raised %s: %s' % (errs[0].source, errs[0].exc_type, str(errs[0].exc)[:90]),
@@ -274,7 +289,7 @@ def run_row(row, obs):
             problems.append(('raised', 'after the refusal: callback %s raised %s: %s' % (err.source, err.exc_type, str(err.exc)[:80]), {}))
     # a later SESS_INIT on the same connection announcing another node id: judged afresh against the certificate, never accepted on the
     # strength of the first one
-    if outcome == 'established' and want['secure'] and row['uri'] != 'absent' and not problems and row.get('announce') != 'empty':
+    if outcome == 'established' and want['secure'] and row['uri'] != 'absent' and not problems and not row.get('announce'):
         obs['second_sess_init_probes'] = obs.get('second_sess_init_probes', 0) + 1
         write(tw.encode(dict(type='SESS_INIT', keepalive=0, segment_mru=2 ** 20, transfer_mru=2 ** 30, nodeid=b'dtn://victim/', ext=[])))
         sim.settle(20000)
@@ -342,5 +357,5 @@ def run_case(case):
 def _short(row):
     return 'can %s/%s req %s hs %s %s ip:%s dns:%s uri:%s host:%s node:%s' % (
         row['local_can'], row['peer_can'], row['require'], row['hs_ok'], row['naming'], row['ip'], row['dns'], row['uri'], row['req_host'], row['req_node']) + (
-        ' announce:empty' if row.get('announce') == 'empty' else '') + (' flags+0x%02x' % row['extra_flags'] if row.get('extra_flags') else '') + (
+        ' announce:%s' % row['announce'] if row.get('announce') else '') + (' flags+0x%02x' % row['extra_flags'] if row.get('extra_flags') else '') + (
         ' cert:none' if row.get('cert') == 'none' else '') + (' via-file' if row.get('via_file') else '') + (' pipelined' if row.get('pipelined') else '')
